@@ -3,9 +3,9 @@ from props import seqcases
 
 LEVEL = "other"
 TECHNIQUE = "bounded inductive contract check (CBMC): one real operation on an arbitrary well-formed container of enumerated size with symbolic contents, postcondition on the whole abstract sequence"
-LEVEL_TEXT = "placeholder"
-NOTE = "placeholder"
-EXPLANATION = "K3"
+LEVEL_TEXT = 'Bounded inductive contract check: every operation of Array, List and Tuple runs on an arbitrary well-formed container of each length 0..3 (thorough 0..4), each capacity the growth policy yields and each index in and around the valid range, with symbolic element values; postconditions are stated on the whole abstract sequence. Lengths above the bound and sort beyond length 2-3 are not decided.'
+NOTE = 'CBMC 6.11; element model contracts; cbmc malloc/realloc/free models with allocation failure excluded; header_init by its K1 contract; Array sort not decided (solver limit), Tuple sort to length 2 (3 thorough)'
+EXPLANATION = LEVEL_TEXT
 TRUSTED = []
 
 def jobs(tier):
